@@ -56,6 +56,10 @@ func c11Check(c *Case) []Violation {
 	if cur != nil {
 		cur.Outcome(groups >= 1, out.Body)
 	}
+	if len(asL(req["biases"])) > 0 {
+		// after a criteria omission the tournament runs on the kept criteria, with every option of the request in force
+		req = asM(roundTrip(reducedByOmissions(M(req), resp)))
+	}
 	return majOracle(c, req, resp)
 }
 
@@ -110,6 +114,10 @@ func majEnumerate(s *Shard, prop string, fn func(c *Case)) {
 						for _, cc := range currents {
 							cfg := majCfg{N: g.n, Vals: vals, Types: types, Weights: w, Policy: pol, Current: cc}
 							fn(&Case{Prop: prop, Kind: "majority", Req: majRequest(cfg)})
+							if g.m == 3 && g.n <= 3 {
+								// the same tournament after a criteria omission took the weakest of the three criteria
+								fn(&Case{Prop: prop, Kind: "majority", Req: withBiases(majRequest(cfg), []M{bias("criteriaOmission", M{"ratio": 0.34})})})
+							}
 							if g.n == 3 && g.m == 2 && len(g.levels) == 3 && g.levels[2] == 2 {
 								fn(&Case{Prop: prop, Kind: "majority", Req: renameIDs(majRequest(cfg), untidyIDs)}) // untidy ids
 							}
